@@ -682,6 +682,8 @@ class Progress(JupyterMixin, RenderHook):
                 if self.auto_refresh and self._refresh_thread is not None:
                     self._refresh_thread.stop()
                 self.refresh()
+                # flush text pending in the redirected streams while it can still go above the frame
+                self._disable_redirect_io()
                 if self.console.is_terminal:
                     self.console.line()
             finally:
